@@ -4,7 +4,7 @@ import os
 import sys
 
 from . import eng_exec
-from .common import strip_log_lines, WORK, Stats, Violation, pmap, shim, finish, collect
+from .common import strip_log_lines, WORK, Stats, Violation, pmap, shim, finish, collect, hang_storm
 
 B = 3000
 
@@ -109,10 +109,16 @@ def programs_task(family, texts, inputs, budget=B):
     sh = shim()
     path = os.path.join(WORK, 'opt-%d.hyeong' % os.getpid())
     for text in texts:
+        if st.n.get('hangs', 0) >= 3 or hang_storm():
+            hang_storm(raise_it=st.n.get('hangs', 0) >= 3)
+            st.inc('skipped_after_hangs')
+            continue        # three runs of this task ended in the 20 s alarm: the rest would only add hours of the same
         with open(path, 'w', encoding='utf-8') as f:
             f.write(text)
         for inp in inputs:
             bad, o0, inc = compare_levels(sh, path, inp.encode('utf-8'), budget=budget)
+            if any(klass == 'crash' and 'sig=14' in obs for _, klass, _, obs in bad):
+                st.inc('hangs')
             st.inc('cases')
             st.inc('runs', 3)
             st.inc('inconclusive', inc)
@@ -149,7 +155,7 @@ def _render(r):
         r[0], o[-120:], len(o), hashlib.md5(o).hexdigest()[:12], e[-120:], len(e), hashlib.md5(e).hexdigest()[:12])
 
 
-def cli_task(texts):
+def cli_task(texts, only=None):
     """the real binary, the level given in every spelling the command line accepts (and not at all): same behaviour as -O0"""
     import subprocess
     from .common import HYEONG, child_setup, run_pty, pty_available
@@ -173,14 +179,25 @@ def cli_task(texts):
             return p.returncode, strip_banner(p.stdout), p.stderr
         except subprocess.TimeoutExpired:
             return 'timeout', b'', b''
+    hangs = 0
     for text in texts:
+        if hangs >= 3 or hang_storm():
+            hang_storm(raise_it=hangs >= 3)
+            st.inc('skipped_after_hangs')
+            continue            # three runs ran into the 60 s limit: more of the same would only cost hours
         with open(path, 'w', encoding='utf-8') as f:
             f.write(text)
         ref = run(['-O0'])
         for lv, opts in SPELLINGS:
             if opts[:1] == ['PTY'] and not have_pty:
                 continue
+            if only is not None and opts != only:
+                continue
+            if hangs >= 3:
+                break
             got = run(opts)
+            if got[0] == 'timeout':
+                hangs += 1
             st.inc('runs')
             st.inc('cases')
             same = got == ref
@@ -505,7 +522,7 @@ def run_c02(tier):
 
 def replay(case):
     if case.get('kind') == 'cli':
-        st = cli_task([case['prog']])
+        st = cli_task([case['prog']], only=case['opts'])
         for v in st.violations:
             if v.case['opts'] == case['opts']:
                 return v.expected, v.observed
